@@ -362,3 +362,32 @@ M("k1-use-before-test", "C12", "fire K1", "src/compile.rs",
         }
         let mut sorted_const_defs: Vec<_> = self.const_defs.iter().collect();""",
   """        let mut sorted_const_defs: Vec<_> = self.const_defs.iter().collect();""", "constants are used although errors were collected (never returned)")
+
+# ---------------------------------------------------------------- C11
+REVERT("revert-importer-checked-arith", "C11", "fire B1", "f41f37b", "pre-fix tree: header numbers are summed / subtracted with trapping arithmetic")
+M("b2-unwrap-parse", "C11", "fire B2", "src/convert.rs",
+  """            let num_inputs: usize = parts[0].parse()?;""",
+  """            let num_inputs: usize = parts[0].parse().unwrap();""", "a non-numeric gate field panics")
+M("b3-header-length-test-removed", "C11", "fire B3", "src/convert.rs",
+  """            let (parts, line_str) = parse_line(lines.next())?;
+            if parts.len() != 2 {
+                return Err(FromBristolError::MalformedLine(line_str));
+            }
+            (parts[1], parts[0])""",
+  """            let (parts, _line_str) = parse_line(lines.next())?;
+            (parts[1], parts[0])""", "a one-number header line panics")
+M("b3-output-wire-unchecked", "C11", "fire B3", "src/convert.rs",
+  """            if output_wire >= wires_num {
+                return Err(FromBristolError::InvalidWireIndex(output_wire));
+            }
+""", "", "a gate writing a wire beyond the declared count panics")
+M("b1-unchecked-sub", "C11", "fire B1", "src/convert.rs",
+  """            let Some(first_output_wire) = wires_num.checked_sub(num_output_wires) else {
+                return Err(FromBristolError::MalformedLine(line_str));
+            };""",
+  """            let first_output_wire = wires_num - num_output_wires;""", "more outputs than wires underflows")
+M("b3-input-wires-unchecked", "C11", "fire B3", "src/convert.rs",
+  """            if let Some(&ind) = input_wires.iter().find(|&&w| w >= wires_num) {
+                return Err(FromBristolError::InvalidWireIndex(ind));
+            }
+""", "", "a gate reading a wire beyond the declared count panics")
